@@ -171,7 +171,7 @@ def nontrivial(case):
     return case["cycles"] >= 1
 
 
-def body(case, ctx):
+def _body(case, ctx):
     from qce_circuit.structure.registry_duration import temporary_override_get_registry_at, GlobalRegistryKey
     ctx.case(case, nontrivial=nontrivial(case), classes=classes_of(case))
     r, m, f, s = case["durations"]
@@ -295,12 +295,21 @@ def items_grid(tier):
                "durations": [r, m, f, s]}
 
 
+def body(case, ctx):
+    # the library installs a "once" filter for its OperationNotFoundWarning at import time (in front of the harness'
+    # "ignore"); unsilenced, a thorough shard writes > 64 kB to stderr and blocks on the parent's pipe
+    import warnings
+    with warnings.catch_warnings():
+        warnings.simplefilter("ignore")
+        _body(case, ctx)
+
+
 def parts():
     return [
         Part("duration_grid", body, items=items_grid, exhaustive=True),
-        Part("repcode_full", body, strategy=strat_full, quick=90, thorough=500),
-        Part("repcode_full_large", body, strategy=strat_full_large, quick=0, thorough=120),
+        Part("repcode_full", body, strategy=strat_full, quick=90, thorough=450),
+        Part("repcode_full_large", body, strategy=strat_full_large, quick=0, thorough=60),
         Part("repcode_simplified", body, strategy=strat_simplified, quick=100, thorough=600),
-        Part("multi_round", body, strategy=strat_multi, quick=20, thorough=150),
-        Part("calibration", body, strategy=strat_calibration, quick=150, thorough=1000),
+        Part("multi_round", body, strategy=strat_multi, quick=20, thorough=100),
+        Part("calibration", body, strategy=strat_calibration, quick=150, thorough=800),
     ]
